@@ -1,5 +1,7 @@
 package hotline
 
+import "time"
+
 // One transaction = one Write on the client's connection, whatever its size (so concurrent senders cannot
 // interleave bytes of two transactions), and the bytes written are exactly the frame.
 func VH_C14_OneWritePerTransaction() {
@@ -122,5 +124,61 @@ func VH_C14_FailedWriteDoesNotLeakIntoNextFrame() {
 	vAssert("one_write", len(good.writes) == 1)
 	if len(good.writes) == 1 {
 		vAssertEqBytes("next_frame_is_exactly_its_own_bytes", good.writes[0], ref)
+	}
+}
+
+// vDeadlineConn is a TCP-like connection to a client that has stopped reading. A write normally waits (here: goes
+// through whole); once a write deadline has been set, the write in progress gives up after part of the frame was
+// accepted and reports a timeout, and the connection stays usable - which is what a deadline does on a real socket.
+type vDeadlineConn struct {
+	got         []byte
+	deadlineSet bool
+	cut         int
+	timedOut    bool
+	lenAtTear   int
+	closed      bool
+}
+
+func (c *vDeadlineConn) Read(p []byte) (int, error) { return 0, vErr{} }
+func (c *vDeadlineConn) Close() error               { c.closed = true; return nil }
+func (c *vDeadlineConn) SetWriteDeadline(t time.Time) error {
+	c.deadlineSet = true
+	return nil
+}
+func (c *vDeadlineConn) SetDeadline(t time.Time) error { return c.SetWriteDeadline(t) }
+func (c *vDeadlineConn) Write(p []byte) (int, error) {
+	if c.closed {
+		return 0, vErr{}
+	}
+	if c.deadlineSet && !c.timedOut && c.cut < len(p) {
+		c.timedOut = true
+		c.got = append(c.got, p[:c.cut]...)
+		c.lenAtTear = len(c.got)
+		return c.cut, vErr{}
+	}
+	c.got = append(c.got, p...)
+	return len(p), nil
+}
+
+// Whatever reaches a client is a sequence of whole transactions: if a write to a slow client is given up part-way
+// (possible only when the sender arms a write deadline), nothing further may be appended to that connection's stream
+// behind the torn frame - the client could never find the next frame boundary.
+func VH_C14_NoFrameAppendedBehindATornOne_sym() {
+	srv, _ := NewServer()
+	conn := &vDeadlineConn{cut: int(vU8("bytes_accepted_before_the_timeout"))}
+	cc := &ClientConn{Connection: conn, Server: srv}
+	srv.ClientMgr.Add(cc)
+	d1 := vBytesEach("data_first", 3)
+	d2 := vBytesEach("data_second", 3)
+	t1 := NewTransaction(TranChatMsg, cc.ID, NewField(FieldData, d1))
+	t2 := NewTransaction(TranServerMsg, cc.ID, NewField(FieldData, d2))
+	ref1 := refTransaction(&t1, [][]byte{refField(FieldData[0], FieldData[1], d1)})
+	ref2 := refTransaction(&t2, [][]byte{refField(FieldData[0], FieldData[1], d2)})
+	srv.sendTransaction(t1)
+	srv.sendTransaction(t2)
+	if conn.timedOut {
+		vAssert("nothing_follows_a_torn_frame", len(conn.got) == conn.lenAtTear)
+	} else {
+		vAssertEqBytes("whole_frames_in_order", conn.got, append(append([]byte(nil), ref1...), ref2...))
 	}
 }
